@@ -141,7 +141,9 @@ func (f *freshnessCalculator) CalculateFreshness(
 		usefulLife = maxAge // Response is fresh for max-age seconds
 	}
 
-	if usefulLife == 0 {
+	// max-age takes precedence whenever it is present (RFC9111 §4.2.1): "max-age=0"
+	// is an explicit lifetime, and an unparsable value means already stale.
+	if !resCC.MaxAgePresent() {
 		expires, found, valid := entry.ExpiresHeader()
 		switch {
 		case valid && expires.After(date):
